@@ -1,0 +1,43 @@
+//go:build verif
+
+// Verification hooks: exported wrappers around unexported functions.
+// Compiled only with the build tag "verif"; adds no behaviour.
+package operators
+
+import "strings"
+
+func verifOperator() *Operator {
+	return &Operator{groupReplacementStringBuilder: &strings.Builder{}}
+}
+
+func VerifEscapeDoublequotes(input string) string {
+	return verifOperator().escapeDoublequotes(input)
+}
+
+func VerifUseHexBackslashes(input string) string {
+	return verifOperator().useHexBackslashes(input)
+}
+
+func VerifUseHexEscapes(input string) string {
+	return verifOperator().useHexEscapes(input)
+}
+
+func VerifIncludeVerticalTabInSpaceClass(input string) string {
+	return verifOperator().includeVerticalTabInSpaceClass(input)
+}
+
+func VerifDontUseFlagsForMetaCharacters(input string) string {
+	return verifOperator().dontUseFlagsForMetaCharacters(input)
+}
+
+func VerifRemoveOutermostNonCapturingGroup(input string) string {
+	return verifOperator().removeOutermostNonCapturingGroup(input)
+}
+
+func VerifRemoveGroup(input string, groupStart int, bodyStart int, ignoreAlternations bool) string {
+	return verifOperator().removeGroup(input, groupStart, bodyStart, ignoreAlternations)
+}
+
+func VerifFindGroupBodyEnd(input string, groupBodyStart int) (int, bool) {
+	return verifOperator().findGroupBodyEnd(input, groupBodyStart)
+}
